@@ -1,4 +1,5 @@
-/-! Driver executable for family `supervisor` — placeholder until the family is built. -/
+import Whv.Driver.Supervisor
+/-! Driver executable for family `supervisor` (C18): case lines on stdin, verdict lines on stdout. -/
 def main : IO UInt32 := do
-  IO.eprintln "family not built"
-  return 2
+  Whv.Driver.SupFam.run (← IO.getStdin)
+  return 0
